@@ -64,6 +64,9 @@ type c08ctx struct {
 	sh    *Shard
 	seen  map[[32]byte]bool
 	bytes int // size of the terms in the open shard
+	// valid frames of the victim connections (victim.go)
+	victims [][]byte
+	nvict   int
 }
 
 // toCoq: which cases are also evaluated by the Coq model (the finder runs on ALL cases).  Quick tier: every
@@ -131,6 +134,9 @@ func (c *c08ctx) eval(in []byte, kind string, desc interface{}) {
 		return
 	}
 	c.seen[h] = true
+	if r1.Kind != "hang" && len(c.victims) >= 2 {
+		c.victim(in, kind, cls, r1.Kind, rep)
+	}
 	if kind != "valid" && r1.Kind != "frame" {
 		run.Sample(map[string]interface{}{"codec": cd.Name, "kind": kind, "len": len(in), "outcome": r1.Kind})
 	}
@@ -144,6 +150,32 @@ func (c *c08ctx) eval(in []byte, kind string, desc interface{}) {
 		c.sh.Close()
 		c.sh = run.NewShard(cd.Header, cd.CaseType, cd.Eval)
 		c.bytes = 0
+	}
+}
+
+// victim: the interleaving of victim.go after this input; B and C rotate over the prepared valid frames
+func (c *c08ctx) victim(in []byte, kind, cls, outcome string, rep map[string]interface{}) {
+	vb, vc := c.victims[c.nvict%len(c.victims)], c.victims[(c.nvict+1+c.nvict/len(c.victims))%len(c.victims)]
+	c.nvict++
+	pre := "malformed-input"
+	if kind == "valid" {
+		pre = "valid-input"
+	}
+	c.run.Count(c.cd.Name+"|victim|"+fmt.Sprint(c.nvict), kind != "valid", c.cd.Name+":victim-interleaving:outcome="+outcome)
+	for _, f := range victimRound(c.cd, in, vb, vc) {
+		rp := map[string]interface{}{"victim_B_hex": Hex(clip(vb, 512)), "victim_C_hex": Hex(clip(vc, 512)),
+			"schedule": "A: Decode(input) in its stream context; B: Decode(victim_B); A: stream context released; C: Decode(victim_C); Encode(B), Encode(C) compared with what B and C sent"}
+		for k, v := range rep {
+			rp[k] = v
+		}
+		for k, v := range f.Detail {
+			rp[k] = v
+		}
+		sig := f.Sig
+		if sig == "malformed-input-corrupts-other-connection" {
+			sig = pre + "-corrupts-other-connection"
+		}
+		c.run.Fail(c.cd.Name+":"+sig, f.What+" [input kind "+kind+"]", rp)
 	}
 }
 
@@ -172,6 +204,13 @@ func clipS(s string, n int) string {
 func c08Codec(run *Run, cd *codecDef) {
 	r := run.R
 	c := &c08ctx{run: run, cd: cd, sh: run.NewShard(cd.Header, cd.CaseType, cd.Eval), seen: map[[32]byte]bool{}}
+	for len(c.victims) < 6 {
+		if vf := cd.Gen(r, false); len(vf.Bytes) <= 4096 {
+			if f, _, err, pan := decodeFresh(cd.Proto, vf.Bytes); f != nil && err == nil && pan == nil {
+				c.victims = append(c.victims, vf.Bytes)
+			}
+		}
+	}
 	nbase := run.N(5, 40)
 	for i := 0; i < nbase; i++ {
 		big := i%4 == 3
@@ -265,10 +304,11 @@ func c08Codec(run *Run, cd *codecDef) {
 
 func c08(args []string) int {
 	run := NewRun("C08", args)
-	run.Sum.Rule = "per codec (bolt, boltv2, dubbo, dubbo-thrift, tars): structured valid frames (field values over their width, lengths from {0..5,7,8,254..257,65534,65535,65536+,random}, 0..40 header pairs) and for each: every length field set to 0,1,2,3,truth-1,truth+1,half-range,max; every byte of the fixed header replaced; truncation at every offset (sampled above 160 bytes); trailing garbage; codec-specific block corruptions (dangling bytes, 0xFFFFFFFF string length, over-long string); plus random byte strings biased to the codec's magic. Each input goes to the REAL Decode under recover()+3s watchdog twice (different contents of the read buffer's spare capacity). Non-trivial = not the unmodified valid frame; distinct by (codec, input hash, outcome)."
+	run.Sum.Rule = "per codec (bolt, boltv2, dubbo, dubbo-thrift, tars): structured valid frames (field values over their width, lengths from {0..5,7,8,254..257,65534,65535,65536+,random}, 0..40 header pairs) and for each: every length field set to 0,1,2,3,truth-1,truth+1,half-range,max; every byte of the fixed header replaced; truncation at every offset (sampled above 160 bytes); trailing garbage; codec-specific block corruptions (dangling bytes, 0xFFFFFFFF string length, over-long string); plus random byte strings biased to the codec's magic. Each input goes to the REAL Decode under recover()+3s watchdog twice (different contents of the read buffer's spare capacity). After every distinct input the victim interleaving (victim.go): A decodes the input in its own stream context, B decodes a valid frame, A's context is released, C decodes a valid frame, B and C are encoded and compared byte for byte with what they sent; reference counts of the pooled frame copies read after Decode and after the release. Non-trivial = not the unmodified valid frame; distinct by (codec, input hash, outcome)."
 	for _, cd := range codecDefs() {
 		c08Codec(run, cd)
 	}
+	poolPremises(run)
 	dispatchProbe(run)
 	c08Contain(run)
 	return run.Finish()
